@@ -71,6 +71,10 @@ Definition frame_args (e : env) (m r : dhcp) (mac : list N) : udp4_args :=
      u_dst_ip := be32 (reply_dest (d_flags m) (d_yiaddr r)); u_dst_port := e_port e; u_dst_mac := mac;
      u_payload := encode r |}.
 
+Definition MAX_UDP4_PAYLOAD : N := 65507.     (* dhcp/mod.rs: 65535 - 20 - 8 *)
+
+Definition too_big (r : dhcp) : bool := MAX_UDP4_PAYLOAD <? lenN (encode r).
+
 Definition E_CHOICE : N := 9.     (* the pool answer offered to the model is not one it admits *)
 
 (* [t1], [t2]: the two clock reads of allocate_address; [ans]: what the lease store answered *)
@@ -95,7 +99,10 @@ Definition server_step (cfg : scfg) (st : sstate) (t1 t2 : N) (e : env) (b : lis
           | (Reply r, _) =>
             let ids' := match serverid r with Some s => s :: ids | None => ids end in
             match to_array (d_chaddr r) with
-            | Ok (Some mac) => do f <- udp4_build (frame_args e m r mac) ; Ok ((d', ids'), Some f)
+            | Ok (Some mac) =>
+              (* reply_frame: "Reply of .. octets does not fit in a UDP datagram, not sent" *)
+              if too_big r then Ok ((d', ids'), None)
+              else do f <- udp4_build (frame_args e m r mac) ; Ok ((d', ids'), Some f)
             | Ok None => Ok ((d', ids'), None)             (* "Cannot send reply to invalid client hardware addr" *)
             | Err x => Err x
             | Panic k => Panic k
